@@ -11,6 +11,7 @@ func init() {
 	vRegister("H_C01_hashenv", H_C01_hashenv)
 	vRegister("H_C01_countersign_attached", H_C01_countersign_attached)
 	vRegister("H_C01_from_cose_key", H_C01_from_cose_key)
+	vRegister("H_C01_concurrent", H_C01_concurrent)
 }
 
 // keyPair: a built-in signer and the matching verifier for one of the 7 algorithms
@@ -359,5 +360,60 @@ func H_C01_from_cose_key() {
 	var back Sign1Message
 	vAssert("cosekey: parses", back.UnmarshalCBOR(out) == nil)
 	vAssert("cosekey: verifies", back.Verify(nil, verifier) == nil)
+	vReach("end")
+}
+
+
+// two independent messages are signed and verified by two goroutines through a signer / verifier that makes its
+// caller wait: each message verifies as if it had been processed alone
+func H_C01_concurrent() {
+	key := vECKeyValid("k.key", vCurveByIndex(0))
+	vAssume(vOnCurve(&key.PublicKey))
+	sg, err := NewSigner(AlgorithmES256, key)
+	vAssume(err == nil)
+	vf, err := NewVerifier(AlgorithmES256, &key.PublicKey)
+	vAssume(err == nil)
+	signer, verifier := yieldingSigner{sg}, yieldingVerifier{vf}
+	hdr := func() Headers { return Headers{Protected: ProtectedHeader{}, Unprotected: UnprotectedHeader{}} }
+	m1 := &Sign1Message{Headers: hdr(), Payload: vBlobN("p1", 1, 40)}
+	p2 := vBlobN("p2", 41, 80)
+	m2 := &Sign1Message{Headers: hdr(), Payload: p2}
+	s2 := &SignMessage{Headers: hdr(), Payload: p2, Signatures: []*Signature{{Headers: hdr()}}}
+	kind := vChoose("second", 2)
+	var e1, e2 error
+	vInterleaved(
+		func() { e1 = m1.Sign(vRand(), nil, signer) },
+		func() {
+			if kind == 0 {
+				e2 = m2.Sign(vRand(), nil, signer)
+			} else {
+				e2 = s2.Sign(vRand(), nil, signer)
+			}
+		})
+	if e1 != nil || e2 != nil {
+		vReach("sign failed")
+		return
+	}
+	var r1, r2 error
+	vInterleaved(
+		func() { r1 = m1.Verify(nil, verifier) },
+		func() {
+			if kind == 0 {
+				r2 = m2.Verify(nil, verifier)
+			} else {
+				r2 = s2.Verify(nil, verifier)
+			}
+		})
+	vAssert("concurrent: messages signed and verified side by side verify", r1 == nil && r2 == nil)
+	// and a countersignature made next to an unrelated signing operation
+	cs := &Countersignature{Headers: hdr()}
+	m3 := &Sign1Message{Headers: hdr(), Payload: vBlobN("p3", 81, 120)}
+	var e3, e4 error
+	vInterleaved(
+		func() { e3 = cs.Sign(vRand(), signer, m1, nil) },
+		func() { e4 = m3.Sign(vRand(), nil, signer) })
+	if e3 == nil && e4 == nil {
+		vAssert("concurrent: a countersignature made next to another signature verifies", cs.Verify(vf, m1, nil) == nil && m3.Verify(nil, vf) == nil)
+	}
 	vReach("end")
 }
